@@ -28,12 +28,14 @@ func init() {
 		Explanation: "Schedule-symbolic execution of the real pipe over an in-memory connection with fault injection: the connection fails with EOF / unexpected EOF / closed-pipe at the k-th I/O operation (k chosen), or the peer closes after serving some commands, or Close() is called by another goroutine at any scheduling point; two callers issue two Do calls each; the pipe starts in sync or pipelining state. Oracle: every call returns on every explored schedule (a caller parked at the end of a path while nothing can run is a HANG violation), a call that does not fail carries its own reply, and calls issued after Close fail.",
 		Assumptions: []string{"sequentially consistent memory; context switches only at visible operations", "Close's 1 s grace timer fires only when nothing else can run"},
 		Trusted:     []string{"engine scheduler and intrinsics", "verifConn fault injection"},
-		Outside:     []string{"schedules needing more than D delays", "redial after failure in mux (later calls served by a fresh connection), cache waiters, Receive and blocking commands, the keep-alive ping path", "store Close paths (lru/adapter/subs)"},
+		Outside:     []string{"schedules needing more than D delays", "redial after failure in mux (later calls served by a fresh connection), cache waiters and blocking commands, the keep-alive ping path", "store Close paths (lru/adapter/subs)"},
 		Bounds:      map[string]any{"quick": "fault op k ≤ 6, 2 callers × 2 calls, D = 1", "thorough": "D = 2"},
 		specs: func(tier string) []specRef {
 			return []specRef{
 				hsd(rootPkg, "VerifC04_pipeFault", P{"callers": 2, "flow": 0, "max_fault_op": 6}, q(tier, 1, 2), 5000000, 3400, "served", "failed", "closed"),
 				hsd(rootPkg, "VerifC04_pipeFault", P{"callers": 2, "flow": 1, "max_fault_op": 6}, 1, 5000000, 3400, "served", "failed", "closed"),
+				// Receive and a pending command when the connection is lost or closed (shared with C26)
+				hsd(rootPkg, "VerifC26_receive", P{"messages": 2, "flow": 0}, 1, 5000000, 3400, "closed", "cutoff"),
 			}
 		},
 	}
